@@ -89,6 +89,85 @@ def parse_totals(text):
     return out
 
 
+_SPELL_CACHE = {}
+
+
+def spellings_of(drv, text):
+    """{line: (col, spelling, warns)} of every directive line of a file's text (Lean model `directivesOfTextC`)"""
+    if text not in _SPELL_CACHE:
+        if len(_SPELL_CACHE) > 4000:
+            _SPELL_CACHE.clear()
+        _SPELL_CACHE[text] = {ln: (col, sp, w) for ln, col, sp, w in drv.ask({"op": "dirspell", "text": text})}
+    return _SPELL_CACHE[text]
+
+
+def events_of_expected(drv, desc, root, want):
+    """the expected events (keys of `warnbase.expected`) as typed events for the message model: the spelling and the
+    column of a source-level event are those of the directive at (file, line) of the generated text"""
+    texts = {os.path.join(str(root), os.path.normpath(p)): "\n".join(b) + ("\n" if b else "") for p, b in desc["texts"].items()}
+    evs = []
+    for key, n in sorted(want.items(), key=str):
+        if key[0] in ("user", "system") and key[2] == 0:
+            ev = {"kind": "user", "forced": True, "file": key[1], "name": key[3]}
+        elif key[0] in ("user", "system", "directive"):
+            col, sp, _ = spellings_of(drv, texts.get(key[1], "")).get(key[2], (0, "", False))
+            ev = {"kind": key[0], "file": key[1], "line": key[2], "col": col, "name": key[3], "spelling": sp}
+        else:
+            ev = {"kind": key[0], "name": key[1]}
+        evs.extend([ev] * n)
+    return evs
+
+
+def exact_messages(ctx, drv, case, desc, root, want, warn_records, obs, out):
+    """C18 message layer: (a) the text the Lean model renders for every expected event, from the templates regenerated
+    out of the log.warning call sites, is byte for byte the `msg` of a record the code issued (multiset equality);
+    (b) property oracle independent of the templates: every expected event is *named* by some issued message
+    (`WarnMsg.namesEvent`: file:line[:col] first, the requested name in quotes, the category phrase of the form, the
+    directive as written) - the predicate `C18Msg.message_names_event` proves of every rendered message;
+    (c) `C18Msg.totals_eq_counts_rendered` on this very input."""
+    evs = events_of_expected(drv, desc, root, want)
+    r = drv.ask({"op": "warnmsg", "events": evs})
+    if "events" not in r:
+        ctx.corr_break("warnmsg", case, "reply", r)
+        return None
+    model = collections.Counter(x["message"] for x in r["events"])
+    real = collections.Counter(m for _, m in warn_records)
+    ctx.dist["messages_compared_exactly"] += sum(model.values())
+    out["model_messages"] = sorted(model.elements())[:6]
+    if model != real:
+        # which expected events have no byte-identical record?
+        left = real - model
+        unnamed = []
+        for ev, x in zip(evs, r["events"]):
+            if x["message"] in real and real[x["message"]] >= model[x["message"]]:
+                continue
+            cand = sorted(left) if left else sorted(real)
+            rr = drv.ask({"op": "warnmsg", "events": [dict(ev, observed=o) for o in cand]}) if cand else {"events": []}
+            if not any(y.get("spec_names") for y in rr["events"]):
+                unnamed.append((ev, cand[:2]))
+        if unnamed:
+            ev, cand = unnamed[0]
+            ctx.classify(case, f"no issued warning names the event {json.dumps(ev)} (file:line first, the requested name in quotes, the "
+                               f"category of its form, the directive as written); closest records: {cand!r}"[:900], CLASSIFIERS)
+        ctx.corr_break("warnmsg.text", case, sorted((real - model).elements())[:3], sorted((model - real).elements())[:3])
+    else:
+        ctx.dist["codebases_messages_identical"] += 1
+    if not all(x["model_names"] for x in r["events"]):
+        ctx.corr_break("warnmsg: rendered message does not name its event (contradicts message_names_event)", case, "theorem",
+                       [x["message"] for x in r["events"] if not x["model_names"]][:2])
+    # totals over the rendered messages: theorem instance, and against the counters observed
+    free = all(all(x["fields_free"]) for x in r["events"])
+    if free and r["counts"] != r["expected_counts"]:
+        ctx.corr_break("warnmsg: counts of rendered messages != per-category numbers (contradicts totals_eq_counts_rendered)", case,
+                       r["expected_counts"], r["counts"])
+    if model == real and r["counts"] != obs["counts"]:
+        ctx.corr_break("warnmsg.counts", case, obs["counts"], r["counts"])
+    if free and model == real and obs["counts"] != r["expected_counts"]:
+        ctx.classify(case, f"aggregator counters {obs['counts']} != numbers of events per category {r['expected_counts']} although no field "
+                           f"holds a category phrase", CLASSIFIERS)
+    return model
+
+
 def check_codebase(ctx, drv, desc, root, origin, cli, extra_expected=None):
     case = {"desc": desc, "origin": origin, "root_name": os.path.basename(str(root))}
     out = {"origin": origin}
@@ -102,6 +181,7 @@ def check_codebase(ctx, drv, desc, root, origin, cli, extra_expected=None):
         ctx.classify(case, f"analysis raises {real['exc']}", CLASSIFIERS)
         return out
     got = collections.Counter()
+    model_msgs = None
     details = {}
     unknown_msgs = []
     warn_records = [(l, m) for l, m in obs["records"] if l == "WARNING"]
@@ -120,6 +200,8 @@ def check_codebase(ctx, drv, desc, root, origin, cli, extra_expected=None):
         ctx.dist["expected_" + k] += n
     ctx.dist["expected_forced_missing"] += sum(n for k, n in want.items() if k[0] == "user" and k[2] == 0)
     ctx.dist["quiet_codebases"] += 1 if not want else 0
+    ctx.dist["multipass_commands"] += sum(1 for ms in desc.get("dbmeta", {}).values() for m in ms if m.get("passes"))
+    ctx.dist["expected_per_pass_repeats"] += sum(n - 1 for k, n in want.items() if k[0] in ("user", "system") and "gone_pass" in str(k[3]))
     if sum(1 for k in kinds if kinds[k]) >= 2 and (kinds["user"] or kinds["system"]):
         ctx.nontrivial.add(json.dumps([desc["texts"], desc["platforms"]], sort_keys=True))
     ctx.sample({"files": sorted(desc["texts"]), "expected": sorted(map(str, want.elements()))[:12]}, cap=4)
@@ -174,28 +256,20 @@ def check_codebase(ctx, drv, desc, root, origin, cli, extra_expected=None):
                  "compiler": mt["compiler"], "known": mt["known"], "unrecognised": mt["unrecognised"]}
                 for e, mt in zip(ents, desc["dbmeta"][pname])]}
             r = drv.ask(req)
-            for msg in r["messages"]:
-                if not any(mm == msg for _, mm in warn_records):
-                    ctx.corr_break("dbevents", case, [mm for _, mm in warn_records if "include" not in mm and "directive" not in mm][:6], r["messages"])
+            # the events of the database model, rendered by the exact message model (regenerated templates)
+            kmap = {"missingFile": "missing", "unknownCompiler": "compiler", "unknownArgs": "args", "noFiles": "nofiles"}
+            rm = drv.ask({"op": "warnmsg", "events": [{"kind": kmap.get(k, k), "name": nm} for k, nm in r["events"]]})
+            for x in rm["events"]:
+                if not any(mm == x["message"] for _, mm in warn_records):
+                    ctx.corr_break("dbevents", case, [mm for _, mm in warn_records if "include" not in mm and "directive" not in mm][:6],
+                                   [y["message"] for y in rm["events"]])
                     break
-        # rendering of the source-level events and the aggregator on the very records observed
-        evs = []
-        for key in got:
-            if key[0] in ("user", "system"):
-                evs.append({"kind": key[0], "file": key[1], "line": key[2], "name": key[3], "spelling": details[key]["spelling"]})
-            elif key[0] == "directive":
-                evs.append({"kind": "directive", "file": key[1], "line": key[2], "col": details[key]["col"], "name": key[3],
-                            "spelling": details[key]["spelling"]})
-        if evs:
-            r = drv.ask({"op": "warnrender", "events": evs})
-            msgs = {mm for _, mm in warn_records}
-            bad = [x for x in r["messages"] if x not in msgs and "'" not in x.split("directive", 1)[-1][4:-3]]
-            if bad:
-                ctx.corr_break("warnrender", case, sorted(msgs)[:3], bad[:3])
+        # (the rendering of the source-level events is compared exactly in `exact_messages` below)
         r = drv.ask({"op": "warncount", "records": [[l, mm] for l, mm in obs["records"]]})
         if r["counts"] != obs["counts"] or r["closing"] != obs["closing"]:
             ctx.corr_break("warncount", case, {"counts": obs["counts"], "closing": obs["closing"]}, r)
         out["model_aggregator"] = r["counts"]
+        model_msgs = exact_messages(ctx, drv, case, desc, root, want, warn_records, obs, out)
     # ---- (4) the command line: closing lines and cbi.log
     # the totals do not depend on how much of the log is echoed to the terminal (-v, -v -v, --debug)
     for vflags in ([[]] + [ctx.rng.choice([["-v"], ["-v", "-v"], ["--debug"], ["-v", "--debug"]])] if cli else []):
@@ -218,10 +292,24 @@ def check_codebase(ctx, drv, desc, root, origin, cli, extra_expected=None):
                 ctx.classify(case, f"command line prints totals {cli_tot} (all, user include, system include); unhonoured input per category {want_tot}", CLASSIFIERS)
             if nlog != want_tot[0]:
                 ctx.classify(case, f"cbi.log holds {nlog} warnings, {want_tot[0]} expected", CLASSIFIERS)
-            for key in want:
-                if key[0] in ("user", "system") and f"{key[1]}:{key[2]}: {key[0]} include '{key[3]}' not found" not in log:
-                    ctx.classify(case, f"cbi.log lacks the warning for {key}", CLASSIFIERS)
-                    break
+            exact_ok = model_msgs is not None and model_msgs == collections.Counter(m for _, m in warn_records)
+            if exact_ok:
+                # every message (as the model renders it = as the logger issued it in-process) stands in cbi.log, byte for
+                # byte, as often as the event occurs
+                for msg, k in model_msgs.items():
+                    # the command line hands `load_database` the database path as written in analysis.toml (relative)
+                    shown = msg if ("warning: " + msg + "\n") in log else msg.replace("'" + str(root) + os.sep, "'", 1)
+                    if log.count("warning: " + shown + "\n") != k:
+                        ctx.dist["cli_log_mismatch"] += 1
+                        ctx.classify(case, f"cbi.log holds {log.count('warning: ' + shown + chr(10))} record(s) of the warning {shown[:200]!r}, {k} expected", CLASSIFIERS)
+                        break
+                else:
+                    ctx.dist["cli_logs_identical"] += 1
+            else:
+                for key in want:
+                    if key[0] in ("user", "system") and f"{key[1]}:{key[2]}: {key[0]} include '{key[3]}' not found" not in log:
+                        ctx.classify(case, f"cbi.log lacks the warning for {key}", CLASSIFIERS)
+                        break
     return out
 
 
@@ -245,7 +333,7 @@ def memo_stream(ctx, drv):
         "src/a.c": ["#include <y.h>", '#include "y.h"', "#include <y.h>", '#include "gone.h"', '#include "gone.h"', '#include "h.h"', '#include "h.h"', "int a;"],
         "src/y.h": ["int y;"],
         "src/h.h": ['#include "gone.h"', "#include <gone.h>", "int h;"],
-        "src/b.c": ['#include "h.h"', "#line 7", "#warning w", "#error e", "#ident \"v\"", "int b;"],
+        "src/b.c": ['#include "h.h"', "#line 7", "#warning w", "#error e", "#ident \"v\"", "int b;", "#include <sys/nope.h>", '#  include "../inc/nope.h"'],
     }
     plats = {"cpu": [{"file": "src/a.c", "directory": ".", "arguments": ["gcc", "-c", "src/a.c"]},
                      {"file": "src/b.c", "directory": ".", "arguments": ["gcc", "-c", "src/b.c"]}],
@@ -283,6 +371,60 @@ def forced_stream(ctx, drv):
         check_codebase(ctx, drv, desc, root, "forced-missing", cli=True)
 
 
+REPR_WORDS = ["x", "1", "'a'", '"s"', '"it\'s"', "a\\b", "`", "'\\n'", '"q\\"r"', "<y.h>", "@", "é", "a  b", "\t", "(", "##"]
+
+
+def repr_stream(ctx, drv):
+    """unknown directives whose spelling makes Python's list repr choose the other quote or escape characters, with leading
+    white space / comments before `#` (the column): the messages of the real parser vs the model's, byte for byte, and the
+    property's naming predicate on the real ones"""
+    from codebasin import file_parser
+    fixed = ["#foo", "  #foo x", "\t# foo  bar   baz", '/* c */ #foo "a\'b"', "#ident 'a'", '#ident "v"', "#foo a\\b", "#foo `x", "#foo 'a' \"b\"",
+             "#foo \\", "  cont", "# ", "#", "#line 3", "#foo\ttab", "#fooé", "int x;", "#warning don't", "#sccs \"it's\""]
+    for i in range(ctx.n(12, 60)):
+        lines = list(fixed) if i == 0 else []
+        for _ in range(0 if i == 0 else ctx.rng.randint(3, 10)):
+            lead = ctx.rng.choice(["", "", " ", "   ", "\t", "/* c */ ", " /**/\t"])
+            name = ctx.rng.choice(["foo", "ident", "sccs", "assert", "line", "error", "import", "Foo_1"])
+            words = " ".join(ctx.rng.choice(REPR_WORDS) for _ in range(ctx.rng.randint(0, 3)))
+            lines.append(f"{lead}#{ctx.rng.choice(['', ' ', '  '])}{name}{' ' if words else ''}{words}")
+            if ctx.rng.random() < 0.3:
+                lines.append("int v;")
+        text = "\n".join(lines) + "\n"
+        case = {"repr_text": text}
+        with core.Scratch() as d:
+            path = os.path.join(os.path.realpath(str(d)), "r.c")
+            with open(path, "w") as fh:
+                fh.write(text)
+            lg = logging.getLogger("codebasin")
+            cap, old = Cap(), lg.level
+            lg.addHandler(cap)
+            lg.setLevel(logging.DEBUG)
+            try:
+                file_parser.FileParser(path).parse_file()
+                real = [m for l, m in cap.recs if l == "WARNING" and "unrecognized directive" in m]
+            except Exception as ex:  # ill-formed text (unterminated constant ...): not a C18 input
+                ctx.dist["repr_stream_rejected"] += 1
+                continue
+            finally:
+                lg.removeHandler(cap)
+                lg.setLevel(old)
+        ctx.count(key="repr-stream")
+        if drv is None:
+            continue
+        model = drv.ask({"op": "dirmsgs", "file": path, "text": text})
+        ctx.dist["directive_messages_compared_exactly"] += len(real)
+        if [m["message"] for m in model] != real:
+            # property side: one message per reported directive that names file:line:col and the spelling as Python prints it
+            rr = drv.ask({"op": "warnmsg", "events": [{"kind": "directive", "file": path, "line": m["line"], "col": m["col"], "name": m["name"],
+                                                       "spelling": m["spelling"], "observed": o} for m, o in zip(model, real)]})
+            if len(model) != len(real) or not all(x.get("spec_names") for x in rr["events"]):
+                ctx.classify(case, f"unknown-directive warnings do not name their directives: issued {real[:3]!r}, expected {[m['message'] for m in model][:3]!r}", [])
+            ctx.corr_break("dirmsgs", case, real[:4], [m["message"] for m in model][:4])
+        elif any("\\" in m or '["' in m for m in real):
+            ctx.dist["directive_messages_with_repr_escapes"] += 1
+
+
 def run(ctx, drv, cap=None):
     core.import_codebasin()
     t_run = time.time()
@@ -292,16 +434,26 @@ def run(ctx, drv, cap=None):
                 "directives mixed with #line/#warning/#error, database entries for missing files, unknown compilers and unknown "
                 "options, computed dangling includes (the form is known only after expansion), build-directory entries whose file is missing there "
                 "although a file of the same relative path exists under the root; plus fully honoured code bases; the command line is also run "
-                "with -v / -v -v / --debug (the totals must not change). Non-trivial = distinct code base whose expected events span at least two "
+                "with -v / -v -v / --debug (the totals must not change); commands of multi-pass compilers (nvcc, icpx -fsycl) whose source has includes only the "
+                "device passes, only the host pass and every pass reach; a stream of unknown directives with quotes, backslashes and leading white space "
+                "(Python list repr, column). Non-trivial = distinct code base whose expected events span at least two "
                 "categories including an unresolved include.")
     ctx.assumptions += [
         "expected include events come from an independent reference preprocessor; for a macro redefined with a different body "
         "(ill-formed C) it keeps the first definition, as the implementation does",
         "generated directives carry no trailing tokens (the separate 'Additional tokens at end of directive' warning is not part of C18)",
-        "only single-pass compilers (gcc/clang families) are generated: one configuration, hence one set of warnings, per command",
-        "the column in 'unrecognized directive' warnings and Python's list repr quoting are not modelled (compared where they are unambiguous)",
+        "multi-pass compilers (nvcc default / -gencode / --gpu-architecture, icpx -fsycl) are generated; 'one warning per occurrence' is read as: "
+        "every pass is a preprocessing run of its own, so an unresolved include is reported once per pass that evaluates it (with that pass's "
+        "macros), while the command-level events (unknown compiler, unrecognised arguments, missing file) are reported once per command and "
+        "an unknown directive once per parsed file",
+        "message layer: the text of every expected event is rendered by the Lean model from the templates regenerated out of the log.warning "
+        "call sites and compared byte for byte with the logger's records and with cbi.log; Python's repr of str is modelled exactly for ASCII, "
+        "characters >= U+0080 are assumed printable (generated: 'é' only)",
         "generated names contain no category phrase ('user include', 'system include'); such names are the separate D30 stream",
     ]
+    if drv is not None:
+        t = drv.ask({"op": "warntemplates"})
+        ctx.dist["message_patterns_from_regenerated_templates"] += 1 if (isinstance(t, dict) and WB.use_templates(t)) else 0
     for f in sorted((core.VERIF / "corpus" / "C18").glob("*.json")):
         c = json.loads(f.read_text())
         with core.Scratch() as d:
@@ -310,6 +462,7 @@ def run(ctx, drv, cap=None):
             check_codebase(ctx, drv, c["desc"], root, "corpus:" + f.name, cli=True)
     memo_stream(ctx, drv)
     forced_stream(ctx, drv)
+    repr_stream(ctx, drv)
     n = ctx.n(260, 1200)
     ncli = min(ctx.n(22, 120), 120)
     for i in range(n):
@@ -330,6 +483,21 @@ def replay(ctx, drv, case):
     c2 = core.Ctx(ctx.prop, "thorough", 0)
     with core.Scratch() as d:
         root = os.path.realpath(str(d))
+        if "repr_text" in case:
+            from codebasin import file_parser
+            path = os.path.join(root, "r.c")
+            with open(path, "w") as fh:
+                fh.write(case["repr_text"])
+            lg = logging.getLogger("codebasin")
+            cap = Cap()
+            lg.addHandler(cap)
+            try:
+                file_parser.FileParser(path).parse_file()
+            finally:
+                lg.removeHandler(cap)
+            real = [m for l, m in cap.recs if l == "WARNING"]
+            model = [m["message"] for m in drv.ask({"op": "dirmsgs", "file": path, "text": case["repr_text"]})] if drv else None
+            return {"implementation": real, "model": model, "spec": "one warning per unknown directive naming file:line:col and the spelling"}
         if case.get("root_name", "").find("include") >= 0:
             root = os.path.join(root, case["root_name"])
             os.makedirs(root)
